@@ -592,6 +592,9 @@ func runReplay(dir string) (bool, string) {
 		if strings.HasPrefix(label, "frozen[") && strings.HasPrefix(got, "assert:frozen[") {
 			return true, got
 		}
+		if strings.HasPrefix(label, "stack:") && (strings.Contains(so, "stack overflow") || strings.Contains(so, "goroutine stack exceeds")) {
+			return true, "native stack grows with the recursion depth: " + grepLine(so, "stack overflow|goroutine stack exceeds")
+		}
 	case "panic":
 		if strings.HasPrefix(got, "panic:") || (got == "" && strings.Contains(so, "panic:")) {
 			return true, firstLine(got, so)
